@@ -272,6 +272,9 @@ func denyExec(fn *ssa.Function) bool {
 		return true
 	}
 	if p == "errors" {
+		if fn.Name() == "Error" && fn.Signature.Recv() != nil && strings.Contains(fn.Signature.Recv().Type().String(), "errorString") {
+			return false // (*errorString).Error just returns its string
+		}
 		return fn.Name() != "New"
 	}
 	return false
